@@ -128,10 +128,11 @@ impl Prop for C25 {
                         let path_txt = if chance(r, 25) { format!("\"{written}\"") } else { written.clone() };
                         let sep = if chance(r, 20) { "\t" } else { " " };
                         let tail = if chance(r, 20) { " ; included here" } else { "" };
+                        let kw = *pick(r, &["$INCLUDE", "$INCLUDE", "$INCLUDE", "$include", "$Include"]);
                         if chance(r, 40) {
-                            lines.push(format!("$INCLUDE{sep}{path_txt}{sep}{}{tail}", pick(r, ORIGINS)));
+                            lines.push(format!("{kw}{sep}{path_txt}{sep}{}{tail}", pick(r, ORIGINS)));
                         } else {
-                            lines.push(format!("$INCLUDE{sep}{path_txt}{tail}"));
+                            lines.push(format!("{kw}{sep}{path_txt}{tail}"));
                         }
                     }
                     _ => {
@@ -180,7 +181,7 @@ impl Prop for C25 {
         out
     }
     fn nontrivial(s: &Scn, _r: &ExecRecord) -> bool {
-        s.files.iter().any(|f| f.lines.iter().any(|l| l.starts_with("$INCLUDE")))
+        s.files.iter().any(|f| f.lines.iter().any(|l| l.len() >= 8 && l[..8].eq_ignore_ascii_case("$INCLUDE")))
     }
     fn case_hash(s: &Scn, _r: &ExecRecord) -> u64 {
         let mut h = 0xcbf29ce484222325u64;
@@ -247,7 +248,8 @@ impl<'a> Model<'a> {
             if let Some(o) = l.strip_prefix("$ORIGIN ") {
                 *origin = o.trim().to_string();
                 self.out.push(FLine { text: l.clone(), path: path.to_path_buf(), line: line_no });
-            } else if let Some(rest) = l.strip_prefix("$INCLUDE") {
+            } else if l.len() >= 8 && l[..8].eq_ignore_ascii_case("$INCLUDE") {
+                let rest = &l[8..];
                 // the model's own reading of the directive: optional quotes around the path,
                 // blanks or tabs between fields, an optional origin, an optional comment
                 let rest = rest.split(';').next().unwrap_or("");
